@@ -696,6 +696,7 @@ def run(chk: core.Check):
     _timed(chk, stage_pointers, rng, (450 if quick else 6000))
     _timed(chk, stage_status, rng, (300 if quick else 3000))
     _timed(chk, stage_machine, rng, (80 if quick else 600))
+    _timed(chk, stage_nested, rng, (250 if quick else 3000))
     _timed(chk, stage_links, rng, (30 if quick else 500))
     for f in chk.findings:
         chk.known(f, witness_fails(f["witness"]))
@@ -1122,6 +1123,196 @@ def stage_machine(chk, rng, n):
 
 
 # ----------------------------------------------------------------------------------------
+# nested link bodies: evaluate(expr, output, evaluate_nested=True) on arbitrary nestings
+# ----------------------------------------------------------------------------------------
+NESTED_LEAVES_OK = ["$response.body#/id", "$response.body#/items/1/name", "$request.query.q", "$statusCode", "$method", "$response.header.Location",
+                    "$response.header.Location#regex:/items/(\\d+)", "u-{$response.body#/id}-{$statusCode}", "{$method}:{$request.query.q}", "plain", "", "x.y",
+                    "$request.body#/items/0/name", "$response.body#/a~1b", "$response.body#/items/2"]
+NESTED_LEAVES_UNRES = ["$response.body#/missing", "$response.header.Missing", "$request.query.absent", "x{$response.body#/missing}", "$response.body#/items/7",
+                       "$response.header.Location#regex:nomatch(\\d+)"]
+NESTED_LEAVES_ODD = ["$response.body", "$response.body#/items", "$request.foo", "a{b}c", "$url.x", "$response.body#/n", "$request.body"]
+NESTED_KEYS_OK = ["k", "id", "$statusCode", "$response.body#/id", "k-{$statusCode}", "$method", "a b", "$response.body#/s", "7"]
+NESTED_KEYS_UNRES = ["$response.body#/missing", "k-{$response.header.Missing}"]
+NESTED_KEYS_ODD = ["$response.body#/items", "$response.body#/n", "$request.foo", "$response.body#/a~1b"]
+
+
+def gen_nested(rng, depth, p_unres, p_odd):
+    """Arbitrary nestings: arrays of objects, arrays of arrays, objects of arrays of objects; expressions in keys and values."""
+    k = rng.random()
+    if depth <= 0 or k < 0.22:
+        j = rng.random()
+        if j < 0.12:
+            return rng.choice([0, 7, -1, True, False, None])
+        if j < 0.12 + p_unres:
+            return rng.choice(NESTED_LEAVES_UNRES)
+        if j < 0.12 + p_unres + p_odd:
+            return rng.choice(NESTED_LEAVES_ODD)
+        return rng.choice(NESTED_LEAVES_OK)
+    if k < 0.62:
+        return [gen_nested(rng, depth - 1, p_unres, p_odd) for _ in range(rng.choice([0, 1, 1, 2, 3]))]
+    out = {}
+    for _ in range(rng.choice([0, 1, 2, 2, 3])):
+        j = rng.random()
+        key = rng.choice(NESTED_KEYS_UNRES) if j < p_unres / 2 else rng.choice(NESTED_KEYS_ODD) if j < p_unres / 2 + p_odd else rng.choice(NESTED_KEYS_OK)
+        out[key] = gen_nested(rng, depth - 1, p_unres, p_odd)
+    return out
+
+
+NESTED_FIXED = [
+    {"items": [{"order": "$response.body#/id"}]},
+    [["$response.body#/id"]],
+    {"a": [{"b": [{"c": "$statusCode", "$method": ["$request.query.q", {"d": "u-{$response.body#/id}-{$statusCode}"}]}]}]},
+    {"items": [{"order": "$response.body#/missing"}]},
+    [[["$response.body#/missing"]]],
+    [{"k-{$statusCode}": 1}],
+    [{"$response.body#/missing": 1}],
+    {"x": [1, [2, [3, ["$method"]]]]},
+    [{"a": "$response.body#/id"}, ["$statusCode", {"b": None}], "$method", 5],
+    {"o": {"o": {"l": [{"l": ["$response.header.Location#regex:/items/(\\d+)"]}]}}},
+]
+
+
+def nesting_shape(e, inside_array=False) -> set:
+    """Which container-in-container situations occur (for the evidence histogram)."""
+    out = set()
+    if isinstance(e, list):
+        for x in e:
+            if isinstance(x, dict):
+                out.add("object_in_array")
+            if isinstance(x, list):
+                out.add("array_in_array")
+            out |= nesting_shape(x, True)
+    elif isinstance(e, dict):
+        for x in e.values():
+            if isinstance(x, dict):
+                out.add("object_in_object")
+            if isinstance(x, list):
+                out.add("array_in_object")
+            out |= nesting_shape(x, False)
+    return out
+
+
+def depth_of(e) -> int:
+    if isinstance(e, list):
+        return 1 + max([depth_of(x) for x in e] or [0])
+    if isinstance(e, dict):
+        return 1 + max([depth_of(x) for x in e.values()] or [0])
+    return 0
+
+
+class _Skip(Exception):
+    pass
+
+
+def ref_nested(e, c, url):
+    """Independent reference: every leaf string (value or key) is replaced by its denotation at every depth;
+    the whole is UNRESOLVABLE as soon as one leaf is.  _Skip = a leaf outside the clean fragment (finding regions, exceptions)."""
+    def leaf(s):
+        r = ref_evaluate(s, c, url)
+        if r is None or r[0] != "value" or r[1] == OPAQUE or expr_region(s, c) not in (None, "pointer_lenient"):
+            raise _Skip
+        for kind, x in ref_parse_value(s) or []:
+            if kind == "expr" and x[0].endswith("body") and x[1] and re.search(r"/(?!0(/|$)|[1-9][0-9]*(/|$))[-+ _0-9]+(/|$)", x[1]):
+                raise _Skip  # a pointer token the implementation reads leniently (finding F1)
+        if "#" in s and ref_parse_bare(s) is None and any(k == "text" and "#" in x for k, x in (ref_parse_value(s) or [])):
+            raise _Skip
+        return r[1]
+
+    if isinstance(e, str):
+        return leaf(e)
+    if isinstance(e, list):
+        out = []
+        for x in e:
+            v = ref_nested(x, c, url)
+            if v == UNRES:
+                return UNRES
+            if v == NOTSET:
+                raise _Skip
+            out.append(v)
+        return out
+    if isinstance(e, dict):
+        out = {}
+        for k, x in e.items():
+            kv = leaf(k)
+            if kv == UNRES:
+                return UNRES
+            if kv is True or kv is False:
+                kv = "true" if kv else "false"
+            elif kv is None:
+                kv = "null"
+            elif isinstance(kv, int):
+                kv = str(kv)
+            elif not isinstance(kv, str) or kv == NOTSET:
+                raise _Skip
+            v = ref_nested(x, c, url)
+            if v == UNRES:
+                return UNRES
+            if v == NOTSET:
+                raise _Skip
+            out[kv] = v
+        return out
+    return e
+
+
+def stage_nested(chk, rng, n):
+    cases = [(c["body"], {**BASE_CTX, **c.get("ctx", {})}) for c in corpus_cases() if c.get("kind") == "nested"]
+    cases += [(e, BASE_CTX) for e in NESTED_FIXED]
+    n_fixed = len(cases)
+    ctxs = [BASE_CTX, {**BASE_CTX, "resp_body": {"id": "abc", "items": [1], "s": "kk"}, "status": 404, "method": "put"},
+            {**BASE_CTX, "resp_body": {"id": None, "items": [{"name": "n0"}, {"name": 5}, [1]], "a/b": {"z": 1}, "s": 3}, "resp_headers": {}, "query": None, "body": NOTSET}]
+    while len(cases) < n + n_fixed:
+        mode = rng.random()
+        p_unres, p_odd = (0.0, 0.0) if mode < 0.45 else (0.12, 0.0) if mode < 0.8 else (0.08, 0.12)
+        e = gen_nested(rng, rng.choice([2, 3, 3, 4, 5]), p_unres, p_odd)
+        if not isinstance(e, (list, dict)):
+            e = [e]
+        cases.append((e, rng.choice(ctxs)))
+    exprs = []
+    prepared = []
+    for e, c in cases:
+        output = make_output(c)
+        url = safe_url(output) or "http://unused.invalid/"
+        ok, table = regex_tables(list(all_strings(e)), c)
+        rx_ok, rx_ex = c_rx(ok, table)
+        exprs.append(f"evaluate {rx_ok} {rx_ex} {c_ctx(c, url)} {cjson(e)} true")
+        prepared.append((output, url))
+    model = coq_eval(exprs)
+    stats = {"cases": len(cases), "fixed": n_fixed, "unresolvable": 0, "resolved": 0, "rejected_or_raised": 0, "oracle_applied": 0, "max_depth": 0}
+    for (e, c), (output, url), m in zip(cases, prepared, model):
+        canon = {"body": e, "ctx": c}
+        shapes = nesting_shape(e)
+        chk.seen(canon, bool(shapes))
+        for sh in shapes:
+            chk.count("nested:" + sh)
+        d = depth_of(e)
+        stats["max_depth"] = max(stats["max_depth"], d)
+        chk.count(f"nested:depth_{min(d, 5)}{'+' if d >= 5 else ''}")
+        impl = impl_evaluate(e, output, nested=True)
+        mo = poutcome(m)
+        tie_ok = mo == impl or (mo[0] == "value" and impl[0] == "value" and opaque_eq(mo[1], impl[1]))
+        if not tie_ok:
+            chk.disagree("expressions.evaluate(evaluate_nested=True) vs Model_C10.evaluate", canon, impl, mo)
+        if impl[0] != "value":
+            stats["rejected_or_raised"] += 1
+        elif impl[1] == UNRES:
+            stats["unresolvable"] += 1
+        else:
+            stats["resolved"] += 1
+        # ---- oracle: leaves replaced by their denotation at every depth; unresolvable iff some leaf is
+        try:
+            ref = ref_nested(e, c, url)
+        except _Skip:
+            continue
+        stats["oracle_applied"] += 1
+        if impl != ("value", ref):
+            chk.fail("a nested link body is not its expressions' denotation at every depth (unresolvable iff some leaf is)", canon,
+                     {"implementation": impl, "reference": ref})
+        elif stats["oracle_applied"] % 60 == 1:
+            chk.sample({"nested_body": e, "evaluated": impl[1]})
+    chk.stages["correspondence_nested_bodies"] = stats
+
+
+# ----------------------------------------------------------------------------------------
 # link extraction + merge into the next step input
 # ----------------------------------------------------------------------------------------
 GEN_CONST = {"path_parameters": {"tid": "gp"}, "query": {"tq": "gq", "tq2": "gq2"}, "headers": {"X-T": "gh"}, "cookies": {"tc": "gc"}}
@@ -1177,7 +1368,9 @@ PARAM_EXPRS = ["$response.body#/id", "$response.body#/items/0/name", "$response.
                "u-{$response.body#/id}", "{$response.body#/id}-{$request.query.q}", "x{$response.body#/missing}", "const", "a#b", "", 5, True, None, ["$statusCode"], {"k": "$method"}]
 BODY_EXPRS = PARAM_EXPRS + [{"ref": "$response.body#/id", "lit": 1}, {"$statusCode": "$method"}, {"a": "$response.body#/id"}, {"a": {"deep": ["$response.body#/items/1/name", 2]}},
                             {"x": "$response.body#/missing"}, {"$response.body#/missing": 1}, ["$response.body#/id", "$response.body#/n"], {"bad": "$request.foo"}, "$request.foo",
-                            {"$response.body#/id": 1, "7": 2}, {"{$response.body#/n}": 1}, {"$response.body#/items": 1}]
+                            {"$response.body#/id": 1, "7": 2}, {"{$response.body#/n}": 1}, {"$response.body#/items": 1},
+                            {"items": [{"order": "$response.body#/id"}]}, [["$response.body#/id"]], {"items": [{"order": "$response.body#/missing"}]},
+                            {"a": [{"b": [{"c": "$statusCode", "$method": ["$request.query.q"]}]}]}, [{"k-{$statusCode}": ["$method", {"x": "$response.body#/n"}]}]]
 PARAM_NAMES = ["tid", "tq", "tq2", "X-T", "tc", "path.tid", "query.tq", "header.X-T", "cookie.tc", "query.extra", "query.tq2", "header.x-t"]
 
 
@@ -1466,11 +1659,12 @@ def live_schema():
                                 "query.m": "$method",
                             }}}},
                         "4XX": {"description": "client error", "links": {
-                            "B": {"operationId": "putB", "requestBody": {"code": "$statusCode", "err": "$response.body#/error", "m": "$method", "lit": 5},
+                            "B": {"operationId": "putB", "requestBody": {"code": "$statusCode", "err": "$response.body#/error", "m": "$method", "lit": 5,
+                                                                          "items": [{"e": "$response.body#/error", "k-{$statusCode}": ["$method"]}], "grid": [["$statusCode"]]},
                                   "x-schemathesis": {"merge_body": False}}}},
                         "503": {"description": "documented, carries no link: the default link must not be followed from it"},
                         "default": {"description": "other", "links": {
-                            "C": {"operationId": "putC", "requestBody": {"st": "$statusCode", "k-{$statusCode}": ["$response.body#/w", 1]}}}},
+                            "C": {"operationId": "putC", "requestBody": {"st": "$statusCode", "k-{$statusCode}": [{"w": "$response.body#/w"}, 1]}}}},
                     },
                 }
             },
@@ -1607,14 +1801,15 @@ def stage_live(chk, rng, runs):
                         continue
                     st, n = ex["status"], ex["n"]
                     if link == "B":
-                        if 400 <= st < 500 and body == {"code": str(st), "err": f"e{n}", "m": "POST", "lit": 5}:
+                        if 400 <= st < 500 and body == {"code": str(st), "err": f"e{n}", "m": "POST", "lit": 5,
+                                                         "items": [{"e": f"e{n}", f"k-{st}": ["POST"]}], "grid": [[str(st)]]}:
                             explained = True
                             break
                     else:
                         if st == 201 or 400 <= st < 500 or st == 503:
                             continue  # documented codes: never a source of the default link
                         if "w" in ex["body"]:
-                            want = {"gen": "g", "st": str(st), f"k-{st}": [ex["body"]["w"], 1]}
+                            want = {"gen": "g", "st": str(st), f"k-{st}": [{"w": ex["body"]["w"]}, 1]}
                         else:
                             want = {"gen": "g"}  # the nested value is unresolvable: the whole link body is dropped
                             stats["unresolvable_cases"] += body == want
